@@ -51,3 +51,71 @@ Print Assumptions tie_h_del.
 Print Assumptions tie_h_roll.
 Print Assumptions tie_rk_is_fast.
 Print Assumptions code_hash_never_panics.
+
+(* ------------------------------------------------------------------ *)
+(* rabinkarp::Finder::new / FinderRev::new: the needle hash and 2^(n-1) *)
+Definition fin_of (f : Finder) : rkfinder := {| rk_hash := Hash_0 (Finder_hash f); rk_2pow := Finder_hash_2pow f |}.
+
+Lemma hash_add_eq h b : rs_Hash_add (mkHash h) b = Ok (tt, mkHash (h_add h b)).
+Proof.
+  unfold rs_Hash_add, h_add, wrap, wr_add, wr_shl, wrapw. cbn [Hash_0]. rewrite rk_mod_32.
+  change (1 mod 32) with 1. rewrite N.shiftl_mul_pow2. change (2 ^ 1) with 2. reflexivity.
+Qed.
+
+Lemma shl1_eq p : wr_shl 32 p 1 = wrap (p * 2).
+Proof. unfold wr_shl, wrap, wrapw. rewrite rk_mod_32. change (1 mod 32) with 1. rewrite N.shiftl_mul_pow2. reflexivity. Qed.
+
+Definition mstep (s : rkfinder) (b : N) : rkfinder :=
+  {| rk_hash := h_add (rk_hash s) b; rk_2pow := wrap (rk_2pow s * 2) |}.
+
+Lemma rk_fold_fwd (g : Finder -> N -> res Finder) :
+  (forall h p b, g (mkFinder (mkHash h) p) b = Ok (mkFinder (mkHash (h_add h b)) (wrap (p * 2)))) ->
+  forall t s, exists s', rfold g t s = Ok s' /\ fin_of s' = fold_left mstep t (fin_of s).
+Proof.
+  intros Hg. induction t as [|b t IH]; intros s; cbn [rfold fold_left]; [eexists; split; reflexivity|].
+  destruct s as [[h] p]. rewrite Hg. destruct (IH (mkFinder (mkHash (h_add h b)) (wrap (p * 2)))) as (s' & E & F).
+  exists s'. split; [exact E|]. rewrite F. reflexivity.
+Qed.
+
+Theorem tie_rk_new x : rmap fin_of (rs_Finder_new x) = Ok (rk_new x).
+Proof.
+  unfold rs_Finder_new, rk_new, rs_Hash_new. cbn [rbind]. change (N.to_nat 0) with 0%nat. change (N.to_nat 1) with 1%nat.
+  destruct x as [|b t]; [reflexivity|]. cbn [nth_error skipn Finder_hash Finder_hash_2pow].
+  rewrite hash_add_eq. cbn [rbind snd].
+  match goal with |- context [rfold ?g t ?s0] =>
+    destruct (rk_fold_fwd g ltac:(intros h p b'; cbn [Finder_hash Finder_hash_2pow]; rewrite hash_add_eq; cbn [rbind snd]; rewrite shl1_eq; reflexivity) t s0) as (s' & E & F);
+    rewrite E end.
+  cbn [rbind rmap]. rewrite F. reflexivity.
+Qed.
+
+Definition rfin_of (f : FinderRev) : rkfinder := fin_of (FinderRev_0 f).
+
+Lemma rk_fold_rev (g : FinderRev -> N -> res FinderRev) :
+  (forall h p b, g (mkFinderRev (mkFinder (mkHash h) p)) b = Ok (mkFinderRev (mkFinder (mkHash (h_add h b)) (wrap (p * 2))))) ->
+  forall t s, exists s', rfold g t s = Ok s' /\ rfin_of s' = fold_left mstep t (rfin_of s).
+Proof.
+  intros Hg. induction t as [|b t IH]; intros s; cbn [rfold fold_left]; [eexists; split; reflexivity|].
+  destruct s as [[[h] p]]. rewrite Hg. destruct (IH (mkFinderRev (mkFinder (mkHash (h_add h b)) (wrap (p * 2))))) as (s' & E & F).
+  exists s'. split; [exact E|]. rewrite F. reflexivity.
+Qed.
+
+Lemma last_opt_rev (x : list N) : last_opt x = nth_error (rev x) 0.
+Proof.
+  rewrite <- (rev_involutive x) at 1. destruct (rev x) as [|a r]; [reflexivity|].
+  unfold last_opt. cbn [rev]. rewrite app_length. cbn [length].
+  rewrite nth_error_app2 by lia. replace (length (rev r) + 1 - 1 - length (rev r))%nat with 0%nat by lia. reflexivity.
+Qed.
+
+Theorem tie_rk_new_rev x : rmap rfin_of (rs_FinderRev_new x) = Ok (rk_new_rev x).
+Proof.
+  unfold rs_FinderRev_new, rk_new_rev, rk_new, rs_Hash_new. cbn [rbind]. change (N.to_nat 1) with 1%nat.
+  rewrite last_opt_rev. destruct (rev x) as [|b t]; [reflexivity|]. cbn [nth_error skipn FinderRev_0 Finder_hash Finder_hash_2pow].
+  rewrite hash_add_eq. cbn [rbind snd].
+  match goal with |- context [rfold ?g t ?s0] =>
+    destruct (rk_fold_rev g ltac:(intros h p b'; cbn [FinderRev_0 Finder_hash Finder_hash_2pow]; rewrite hash_add_eq; cbn [rbind snd]; rewrite shl1_eq; reflexivity) t s0) as (s' & E & F);
+    rewrite E end.
+  cbn [rbind rmap]. rewrite F. reflexivity.
+Qed.
+
+Print Assumptions tie_rk_new.
+Print Assumptions tie_rk_new_rev.
